@@ -1,6 +1,7 @@
 package chsql
 
 import (
+	"fmt"
 	"strings"
 )
 
@@ -10,6 +11,7 @@ type lambdaFrame struct {
 	parent *lambdaFrame
 	name   string
 	val    Value
+	typ    *Type // static type of the parameter when known
 }
 
 func (l *lambdaFrame) lookup(name string) (Value, bool) {
@@ -45,8 +47,9 @@ func (sc *selectCtx) newConstEnv() *env { return &env{sc: sc, constOnly: true} }
 
 // closure is the runtime value of a lambda expression.
 type closure struct {
-	lam *Lambda
-	ev  *env
+	lam    *Lambda
+	ev     *env
+	ptypes []*Type
 }
 
 func (c *closure) call(args ...Value) (Value, error) {
@@ -55,7 +58,11 @@ func (c *closure) call(args ...Value) (Value, error) {
 	}
 	ne := *c.ev
 	for i, p := range c.lam.Params {
-		ne.lambda = &lambdaFrame{parent: ne.lambda, name: p, val: args[i]}
+		var pt *Type
+		if i < len(c.ptypes) {
+			pt = c.ptypes[i]
+		}
+		ne.lambda = &lambdaFrame{parent: ne.lambda, name: p, val: args[i], typ: pt}
 	}
 	return ne.eval(c.lam.Body)
 }
@@ -347,19 +354,7 @@ func (sc *selectCtx) canonOf1(e Expr, lambdaNames []string, aliasStack []string)
 	return "", unsupported("expression node %T", e)
 }
 
-var ptrIDs = map[*Subquery]int{}
-
-func exprPtr(s *Subquery) string {
-	// identity of the node; the map only ever grows by the number of distinct subquery nodes parsed
-	ptrMu.Lock()
-	defer ptrMu.Unlock()
-	id, ok := ptrIDs[s]
-	if !ok {
-		id = len(ptrIDs) + 1
-		ptrIDs[s] = id
-	}
-	return itoa(id)
-}
+func exprPtr(s *Subquery) string { return fmt.Sprintf("%p", s) }
 
 // ---- aggregate detection -------------------------------------------------------------------------
 
@@ -614,7 +609,7 @@ func (ev *env) evalFunc(f *Func) (Value, error) {
 	}
 	def, ok := funcs[f.Name]
 	if !ok {
-		return nil, raise("UNKNOWN_FUNCTION", "unknown function %s", f.Name)
+		return nil, unknownFunction(f.Name)
 	}
 	if f.HasParams {
 		return nil, raise("FUNCTION_CANNOT_HAVE_PARAMETERS", "function %s is not parametric", f.Name)
@@ -629,6 +624,25 @@ func (ev *env) evalFunc(f *Func) (Value, error) {
 			return nil, err
 		}
 		args[i] = v
+	}
+	if len(args) > 0 {
+		if cl, ok := args[0].(*closure); ok {
+			// give the closure the static element types of the arrays it will be applied to
+			ats := make([]*Type, len(f.Args))
+			te := ev.typeEnv()
+			for i := 1; i < len(f.Args); i++ {
+				t, err := sc.typeOf(f.Args[i], te)
+				if err != nil {
+					return nil, err
+				}
+				ats[i] = t
+			}
+			pts, err := lambdaParamTypes(f, cl.lam, ats)
+			if err != nil {
+				return nil, err
+			}
+			args[0] = &closure{lam: cl.lam, ev: cl.ev, ptypes: pts}
+		}
 	}
 	// comparison with a constant string: the string is parsed as the other side's type (rule A17)
 	if def.cmp {
